@@ -268,7 +268,12 @@ def m_unwrap_or(I, fr, fn, a):
 
 def m_deref_id(I, fr, fn, a): return a[0]
 def m_clone(I, fr, fn, a): return cp(D(I, a[0]))
-def m_borrow(I, fr, fn, a): return a[0]
+def m_borrow(I, fr, fn, a):
+    r = a[0]
+    if isinstance(r, Ref):
+        v = I.deref(r)
+        if isinstance(v, (Ref, SliceRef)): return v      # <&T as Borrow<T>>::borrow(&&T) -> &T
+    return r
 def m_default_zero_sized(I, fr, fn, a): return UNIT
 
 # iterators: eager python lists wrapped in an IterObj
@@ -285,7 +290,7 @@ def as_items(I, v):
     if isinstance(v, Ref):
         arr = I.deref(v)
         if isinstance(arr, list): return [Ref(v.frame, v.local, list(v.path) + [i]) for i in range(len(arr))]
-        if isinstance(arr, (IterObj, Agg)): return as_items(I, arr)
+        if isinstance(arr, (IterObj, Agg, SliceRef, Ref)): return as_items(I, arr)
     if isinstance(v, list): return list(v)
     if isinstance(v, Agg) and v.name.endswith('Range') and len(v.fields) == 2 and all(isinstance(x, int) for x in v.fields):
         return list(range(v.fields[0], v.fields[1]))
@@ -589,6 +594,7 @@ STD_FNS = [
     (r'^core::(option::Option|result::Result)::<.*>::unwrap_or$', m_unwrap_or),
     (r'^<.* as core::clone::Clone>::clone$', m_clone),
     (r'^<.* as core::borrow::Borrow<.*>>::borrow$', m_borrow),
+    (r'^<.* as core::convert::AsRef<.*>>::as_ref$', lambda I, fr, fn, a: I.deref(a[0]) if isinstance(a[0], Ref) and isinstance(I.deref(a[0]), (SliceRef, Ref)) else NotImplemented),
     (r'^<.* as core::convert::AsRef<.*>>::as_ref$', lambda I, fr, fn, a: m_vec_deref(I, fr, fn, a) if isinstance(I.deref(a[0]), Agg) and I.deref(a[0]).name.endswith('Vec') else (SliceRef(a[0], 0, len(I.deref(a[0]))) if isinstance(a[0], Ref) and isinstance(I.deref(a[0]), list) else a[0])),
     (r'^<once_cell::sync::Lazy<.*> as core::ops::Deref>::deref$', m_lazy_deref),
     (r'^once_cell::sync::Lazy::<.*>::new$', m_lazy_new),
